@@ -49,6 +49,7 @@ pub fn enable(frequency: u64, start: u64, read_cost: u64, horizon_reads: u64) {
     READS.store(0, SeqCst);
     HORIZON.store(horizon_reads, SeqCst);
     QUANTUM.store(1, SeqCst);
+    HORIZON_HIT.store(false, SeqCst);
     ENDS.lock().unwrap_or_else(|e| e.into_inner()).clear();
     ENABLED.store(true, SeqCst);
 }
@@ -58,6 +59,20 @@ pub fn disable() {
     let mut f = FORCED.lock().unwrap_or_else(|e| e.into_inner());
     f.precision = None;
     f.overheads = None;
+}
+
+static HORIZON_HIT: AtomicBool = AtomicBool::new(false);
+
+/// Aborts the current run because its budget is exhausted. The panic may be
+/// caught and re-labelled on its way up, so the fact is also kept in a flag.
+pub fn raise_horizon() -> ! {
+    HORIZON_HIT.store(true, SeqCst);
+    panic!("{}", HORIZON_PANIC);
+}
+
+/// Whether the budget was exhausted since the last `enable`.
+pub fn horizon_hit() -> bool {
+    HORIZON_HIT.load(SeqCst)
 }
 
 pub fn is_enabled() -> bool {
@@ -72,7 +87,7 @@ pub fn read(edge: Edge) -> Option<u64> {
     }
     let n = READS.fetch_add(1, SeqCst);
     if n >= HORIZON.load(SeqCst) {
-        panic!("{}", HORIZON_PANIC);
+        raise_horizon();
     }
     let raw = NOW.fetch_add(READ_COST.load(SeqCst), SeqCst);
     let q = QUANTUM.load(SeqCst).max(1);
